@@ -9,6 +9,7 @@ From SU.Proofs Require Import QuantHystProofs.
 From Flocq Require Import Core IEEE754.BinarySingleNaN.
 From SU.Proofs Require Import QuantExtraProofs.
 From SU.Proofs Require Import QuantKillers.
+From SU.Proofs Require Import QuantKeepsProofs.
 Open Scope R_scope.
 
 (** if the previously reported note is still allowed and the input is inside its window,
@@ -170,6 +171,104 @@ Theorem C09_ex_keep_across_edit :
 Proof. exact KQ_ex_keep_across_edit. Qed.
 Close Scope Z_scope.
 
+(** the branch condition of the two theorems above, characterised independently for every reachable quantizer: a conversion has happened, the remembered note is still allowed, and the clamped input is strictly inside the f32 window *)
+Open Scope Z_scope.
+Theorem C09_keeps_iff : forall ops v, wf_ops ops ->
+  let q := qrun ops in
+  let n := c_note (q_cached q) in
+  keeps q v = true <->
+  (has_convert ops = true /\ note_allowed (q_allowed q) n = true /\
+   (R32 (win_lo n) < R32 (clamp_vin v) < R32 (win_hi n))%R).
+Proof. exact keeps_iff. Qed.
+Close Scope Z_scope.
+
+(** whose bounds are n/12 - 1/120 and (n+1)/12 + 1/120 within 2^-19 V *)
+Open Scope Z_scope.
+Theorem C09_win_bounds : forall n, 0 <= n <= 131 ->
+  (Rabs (R32 (win_lo n) - (IZR n / 12 - / 120)) <= / 524288 /\
+   Rabs (R32 (win_hi n) - (IZR (n + 1) / 12 + / 120)) <= / 524288)%R.
+Proof. exact win_bounds. Qed.
+Close Scope Z_scope.
+
+(** before the first conversion nothing is kept *)
+Open Scope Z_scope.
+Theorem C09_keeps_initial : forall q v, q_cached q = conv_new -> keeps q v = false.
+Proof. exact keeps_initial. Qed.
+Close Scope Z_scope.
+
+(** the first clause of the property with no reference to the model's branch *)
+Open Scope Z_scope.
+Theorem C09_keep_real : forall ops v, wf_ops ops ->
+  let q := qrun ops in
+  let n := c_note (q_cached q) in
+  has_convert ops = true ->
+  note_allowed (q_allowed q) n = true ->
+  (IZR n / 12 - / 120 + / 524288 < R32 (clamp_vin v)
+     < IZR (n + 1) / 12 + / 120 - / 524288)%R ->
+  c_note (snd (convert q v)) = n /\
+  c_stair (snd (convert q v)) = c_stair (q_cached q) /\
+  q_cached (fst (convert q v)) = snd (convert q v) /\
+  q_allowed (fst (convert q v)) = q_allowed q.
+Proof. exact C09_keep_real. Qed.
+Close Scope Z_scope.
+
+(** the second clause likewise: not yet converted, or note no longer allowed, or input outside the widened bucket -> exactly the history-free record *)
+Open Scope Z_scope.
+Theorem C09_memoryless_real : forall ops v, wf_ops ops ->
+  let q := qrun ops in
+  let n := c_note (q_cached q) in
+  (has_convert ops = false \/
+   note_allowed (q_allowed q) n = false \/
+   (R32 (clamp_vin v) <= IZR n / 12 - / 120 - / 524288)%R \/
+   (IZR (n + 1) / 12 + / 120 + / 524288 <= R32 (clamp_vin v))%R) ->
+  snd (convert q v) = snd (convert (mkQuant conv_new (q_allowed q)) v) /\
+  q_cached (fst (convert q v)) = snd (convert q v) /\
+  q_allowed (fst (convert q v)) = q_allowed q.
+Proof. exact C09_memoryless_real. Qed.
+Close Scope Z_scope.
+
+(** the first clause needs "previously reported": a fresh quantizer remembers note 0 but its window is empty *)
+Open Scope Z_scope.
+Theorem C09_keep_real_needs_conversion :
+  let ops := @nil quant_op in
+  let q := qrun ops in
+  wf_ops ops /\ has_convert ops = false /\ c_note (q_cached q) = 0 /\
+  note_allowed (q_allowed q) 0 = true /\
+  (IZR 0 / 12 - / 120 + / 524288 < R32 (clamp_vin v_0_0834)
+     < IZR (0 + 1) / 12 + / 120 - / 524288)%R /\
+  c_note (snd (convert q v_0_0834)) = 1.
+Proof. exact keep_real_needs_conversion. Qed.
+Close Scope Z_scope.
+
+(** non-vacuity *)
+Open Scope Z_scope.
+Theorem C09_ex_keep_real :
+  let ops := [QConvert v_0_5] in
+  let q := qrun ops in
+  wf_ops ops /\ has_convert ops = true /\ c_note (q_cached q) = 6 /\
+  note_allowed (q_allowed q) 6 = true /\
+  (IZR 6 / 12 - / 120 + / 524288 < R32 (clamp_vin v_0_496)
+     < IZR (6 + 1) / 12 + / 120 - / 524288)%R /\
+  c_note (snd (convert q v_0_496)) = 6 /\
+  c_note (snd (convert (mkQuant conv_new (q_allowed q)) v_0_496)) = 5 /\
+  keeps q v_0_496 = true.
+Proof. exact ex_keep_real. Qed.
+Close Scope Z_scope.
+
+(** non-vacuity: note forbidden in between *)
+Open Scope Z_scope.
+Theorem C09_ex_memoryless_real_forbidden :
+  let ops := [QConvert v_0_5; QForbid [6]] in
+  let q := qrun ops in
+  wf_ops ops /\ has_convert ops = true /\ c_note (q_cached q) = 6 /\
+  note_allowed (q_allowed q) 6 = false /\
+  (IZR 6 / 12 - / 120 + / 524288 < R32 (clamp_vin v_0_5042)
+     < IZR (6 + 1) / 12 + / 120 - / 524288)%R /\
+  snd (convert q v_0_5042) = snd (convert (mkQuant conv_new (q_allowed q)) v_0_5042) /\
+  c_note (snd (convert q v_0_5042)) = 7 /\ keeps q v_0_5042 = false.
+Proof. exact ex_memoryless_real_forbidden. Qed.
+Close Scope Z_scope.
+
 Print Assumptions C09_keep.
 Print Assumptions C09_memoryless.
 Print Assumptions C09_cached_ok.
@@ -188,3 +287,11 @@ Print Assumptions C09_ex_monotone.
 Print Assumptions C09_edit_keeps_cache.
 Print Assumptions C09_keep_across_edit.
 Print Assumptions C09_ex_keep_across_edit.
+Print Assumptions C09_keeps_iff.
+Print Assumptions C09_win_bounds.
+Print Assumptions C09_keeps_initial.
+Print Assumptions C09_keep_real.
+Print Assumptions C09_memoryless_real.
+Print Assumptions C09_keep_real_needs_conversion.
+Print Assumptions C09_ex_keep_real.
+Print Assumptions C09_ex_memoryless_real_forbidden.
